@@ -167,3 +167,40 @@ Theorem find_over_a_condition_with_offsets : forall lf f tid c st0 t0,
   Ok (PL (map VInt (filter (truth_at (eval lf f) tid c st0 t0) (zrange_nat i (S (Z.to_nat (tr_max t0 - i))))))) (at_idx tid st0 t0 i).
 Proof. exact ReadOnlyAt.find_pointwise_roa. Qed.
 Print Assumptions find_over_a_condition_with_offsets.
+
+(** which operators that fragment has (54 of the evaluator's operators; quote keeps its operand unevaluated, so any
+    operand is allowed there), and an example condition using scoped, named and relative references *)
+Definition read_only_operators : list op :=
+  [ONot; OEq; ONeq; OGt; OLt; OGe; OLe; OAnd; OOr; OIf; ODo; OAdd; OSub; OMul; ODiv; OExp; OMod; OBor; OBand; OBxor; OSlice;
+   OReval; OGet; OResolveScope; OResolveGroup; OLoadedTraces; OGroups; ODefinedP; OSignalP; OSignalWidth;
+   OAtomP; OSymbolP; OStringP; OIntP; OListP;
+   OConvertBin; OStringToInt; OBitsToSint; OStringToSymbol; OSymbolToString; OIntToString;
+   OList; OFirst; OSecond; OLast; ORest; OIn; OMax; OMin; OAverage; OZip; OLength; ORange; OGeta].
+Theorem the_fragment_with_offsets_is : forall o, ReadOnlyAt.roa_op o = true <-> In o read_only_operators.
+Proof.
+  intros o. split.
+  - intros H. destruct o; try discriminate H; unfold read_only_operators; repeat (first [left; reflexivity | right]).
+  - assert (F : Forall (fun o => ReadOnlyAt.roa_op o = true) read_only_operators) by (repeat constructor).
+    rewrite Forall_forall in F. apply F.
+Qed.
+Print Assumptions the_fragment_with_offsets_is.
+
+Theorem the_fragment_with_offsets_is_syntactic : forall e, ReadOnlyAt.is_roa e =
+  match e with
+  | VInt _ | VBool _ | VStr _ | VFloat _ | VSym _ _ => true
+  | VList _ [VOp OQuote; _] => true
+  | VList _ (VOp o :: args) => ReadOnlyAt.roa_op o && forallb ReadOnlyAt.is_roa args
+  | _ => false
+  end.
+Proof. intros e. destruct e; reflexivity. Qed.
+Print Assumptions the_fragment_with_offsets_is_syntactic.
+
+(** (&& (= (get "top.valid") 1) (in ~state (quote (1 2))) (! (= #ready@1 ready@-1)) (< (length (groups "_valid")) 3)) *)
+Example a_condition_of_the_fragment : ReadOnlyAt.is_roa
+  (WL [VOp OAnd;
+       WL [VOp OEq; WL [VOp OGet; VStr "top.valid"]; VInt 1];
+       WL [VOp OIn; WL [VOp OResolveScope; VSym "state" None]; WL [VOp OQuote; WL [VInt 1; VInt 2]]];
+       WL [VOp ONot; WL [VOp OEq; WL [VOp OReval; WL [VOp OResolveGroup; VSym "ready" None]; VInt 1];
+                                  WL [VOp OReval; VSym "ready" None; VInt (-1)]]];
+       WL [VOp OLt; WL [VOp OLength; WL [VOp OGroups; VStr "_valid"]]; VInt 3]]) = true.
+Proof. reflexivity. Qed.
